@@ -184,3 +184,20 @@ package main
 //@   infunc \)\.processRegistry$
 //@   where the-error-list: $sameslice(list, caller.errs)
 //@   requires only-real-errors-recorded: len(add) == 1 && add[0] != nil
+
+// ---- C18: what an entry selects is what the entry says ----
+// "every selected source tag": which tags, media types, backup name and referrers an entry selects
+// is decided by the entry's own settings; the defaults section only fills in what the entry left
+// unset. syncSetDefaults keeps every setting the entry made and takes the default (or the built-in
+// value) only for settings that were empty.
+//@ func syncSetDefaults(s, d)
+//@   prop C18
+//@   entry-assume s != nil
+//@   ensures entry-media-types-kept: len(old(s.MediaTypes)) > 0 ==> $sameslice(s.MediaTypes, old(s.MediaTypes))
+//@   ensures default-media-types-fill-in: len(old(s.MediaTypes)) == 0 && len(d.MediaTypes) > 0 ==> $sameslice(s.MediaTypes, d.MediaTypes)
+//@   ensures built-in-media-types-last: len(old(s.MediaTypes)) == 0 && len(d.MediaTypes) == 0 ==> $sameslice(s.MediaTypes, defaultMediaTypes)
+//@   ensures entry-backup-kept: old(s.Backup) != "" ==> s.Backup == old(s.Backup)
+//@   ensures default-backup-fill-in: old(s.Backup) == "" ==> s.Backup == d.Backup
+//@   ensures entry-referrer-source-and-target-kept: (old(s.ReferrerSrc) != "" ==> s.ReferrerSrc == old(s.ReferrerSrc)) && (old(s.ReferrerTgt) != "" ==> s.ReferrerTgt == old(s.ReferrerTgt))
+//@   ensures entry-switches-kept: (old(s.DigestTags) != nil ==> s.DigestTags == old(s.DigestTags)) && (old(s.Referrers) != nil ==> s.Referrers == old(s.Referrers)) && (old(s.FastCheck) != nil ==> s.FastCheck == old(s.FastCheck)) && (old(s.ForceRecursive) != nil ==> s.ForceRecursive == old(s.ForceRecursive)) && (old(s.IncludeExternal) != nil ==> s.IncludeExternal == old(s.IncludeExternal))
+//@   ensures tag-and-repo-filters-untouched: s.Tags == old(s.Tags) && s.Repos == old(s.Repos) && s.Source == old(s.Source) && s.Target == old(s.Target) && s.Type == old(s.Type)
